@@ -559,7 +559,17 @@ class FuncFlow:
     def _join_val(self, a, b):
         if a is b:
             return a
-        if isinstance(b, Acc) and (b.init is a or (isinstance(a, Acc) and a.loop is b.loop and a.name == b.name)):
+        if isinstance(a, Acc) and isinstance(b, Acc) and a.loop is b.loop and a.name == b.name:
+            terms = list(a.terms)
+            for t in b.terms:
+                if not any(t[3] is x[3] for x in terms):
+                    terms.append(t)
+            if len(terms) == len(a.terms):
+                return a
+            if len(terms) == len(b.terms) and all(any(t[3] is x[3] for x in b.terms) for t in terms):
+                return b
+            return Acc(a.name, a.init, a.loop, terms)
+        if isinstance(b, Acc) and b.init is a:
             return b
         if isinstance(a, Acc) and (a.init is b):
             return a
@@ -1017,6 +1027,10 @@ def same_value(a, b) -> bool:
         return len(a.elts) == len(b.elts) and all(same_value(x, y) for x, y in zip(a.elts, b.elts))
     if isinstance(a, ast.IfExp):
         return same_value(a.test, b.test) and same_value(a.body, b.body) and same_value(a.orelse, b.orelse)
+    if isinstance(a, ast.JoinedStr):
+        return len(a.values) == len(b.values) and all(same_value(x, y) for x, y in zip(a.values, b.values))
+    if isinstance(a, ast.FormattedValue):
+        return a.conversion == b.conversion and same_value(a.value, b.value)
     if isinstance(a, ast.Compare):
         return len(a.ops) == len(b.ops) and all(type(x) is type(y) for x, y in zip(a.ops, b.ops)) and \
             same_value(a.left, b.left) and all(same_value(x, y) for x, y in zip(a.comparators, b.comparators))
